@@ -127,6 +127,9 @@ let () =
                 | "permcols", p -> List.map (fun s -> List.nth cn (int_of_string s)) p
                 | _ -> cn) in
               print_lp_block "t" u' cn')
+         | "todouble", [ v ] ->
+           let q0 = q_of_string v in
+           Printf.printf "A %s %s %s\n" id (string_of_q (to_double q0)) (string_of_q (ulp0 q0))
          | "kkt", [ sem ] ->
            let hdr = (match next_tokens ic with Some h -> h | None -> failwith "eof") in
            let (p, _) = read_ilp ic hdr in
